@@ -18,7 +18,8 @@ Ev == TraceLog[l]
 SetOf(s) == {s[i] : i \in 1 .. Len(s)}
 AbsI(a) == IF a < 0 THEN -a ELSE a
 (* |q/65536 - v| <= 2/65536 for every component; v exact rational <<num, den>> *)
-XClose(v, q) == Len(q) = Len(v) /\ \A i \in 1 .. Len(v) : AbsI(q[i] * v[i][2] - v[i][1] * 65536) <= 2 * v[i][2]
+XClose(v, q) == Len(q) = Len(v) /\ \A i \in 1 .. Len(v) : /\ AbsI(q[i]) <= 1000000000 \div v[i][2]    \* the driver logs NaN / huge values as +-2*10^9: never close, and no 32-bit overflow below
+                                                          /\ AbsI(q[i] * v[i][2] - v[i][1] * 65536) <= 2 * v[i][2]
 YMatch(v, c) == Len(c) = Len(v) /\ \A i \in 1 .. Len(v) : c[i] = RSign(v[i])
 
 Consume == l' = l + 1
